@@ -106,3 +106,18 @@ func verifBytes(tag string, n int) []byte {
 	}
 	return b
 }
+
+// verifIte and verifB2I are branch-free selections (one path in the engine).
+func verifIte(c bool, a, b int) int {
+	if c {
+		return a
+	}
+	return b
+}
+
+func verifB2I(c bool) int {
+	if c {
+		return 1
+	}
+	return 0
+}
